@@ -13,14 +13,14 @@ CLAIMED = {
     'C08': ('Every obligation (ring laws of SeqNum, diff/ordering over half the ring, BitField.insert/contains '
             'against a ghost receive set for widths 8..256, ack/ack_bits naming through the real header codec and '
             '_handle_ack_bits, the _recv_datagram gate accepting a genuine datagram up to the window edge exactly when it was not received before, the message gate delivering a message (APP / APP_FRAGMENT) at any offset -32767..32767 from an arbitrary 256-bit window exactly when it was not received before and never flagging a never-received message older than the window) is an SMT query over the whole value domain on every execution path of the real source; '
-            'one inductive window step from an arbitrary state covers insertion histories of any length. A complementary API-only lemma (L8.8) builds BitField through its constructor and inserts 3-4 numbers at representative offsets around every window boundary at both ends of the ring: refused exactly when received before inside the window, contains() agrees - this one does not depend on the representation the state-injecting lemmas write.',
+            'one inductive window step from an arbitrary state covers insertion histories of any length; at the datagram gate a damaged copy (same clear-text header, other ciphertext) that arrives first is not accepted and not recorded in the window. A complementary API-only lemma (L8.8) builds BitField through its constructor and inserts 3-4 numbers at representative offsets around every window boundary at both ends of the ring: refused exactly when received before inside the window, contains() agrees - this one does not depend on the representation the state-injecting lemmas write.',
             'Trusted: the sx engine (proxy semantics for int/bit operations, validated by running the repo tests '
             'concretely through it), z3, the struct model. Bounds: values are the full 16-bit domain, offsets '
             '|d| <= 32767 as the statement says; window widths enumerated (quick 8/32/256, thorough every multiple of 8).',
             'DESIGN.md §6 C08'),
     'C09': ('Header and packet codecs are executed symbolically over all field values, message seqs/types and opaque '
             'payloads of symbolic length (CRC form and AEAD form); packing is executed from an arbitrary queue with a '
-            'symbolic MTU (512..1500): every datagram is proven <= MTU-28, messages that fit together are proven to '
+            'symbolic MTU (512..1500), the connection object constructed before or after the MTU it packs under was set: every datagram is proven <= MTU-28, messages that fit together are proven to '
             'leave together, and construction is proven never to raise or lose messages, including 255/256/300 tiny '
             'messages per tick; whatever send() queues for a payload of any length is admitted by the packer for every MTU (the queue drains, L9.6). The retransmission path is driven too: hundreds of unacknowledged BEST_EFFORT messages that come due in one tick are re-sent once each under the same count and size limits.',
             'Trusted: sx engine, struct/crc/AEAD models (crc32 uninterpreted, AEAD ideal). Bounds: <= 3 (thorough 6) '
@@ -29,7 +29,7 @@ CLAIMED = {
             'DESIGN.md §6 C09'),
     'C06': ('The real send()/FragmentSender.build is executed on an opaque payload of symbolic length with a symbolic MTU: '
             'the queued fragment bodies are proven (rope equality) to concatenate to the payload, each to fit a datagram, '
-            'payloads up to the limit to stay unfragmented, payloads above the fragmentation limit to be refused and a payload of exactly the limit to be accepted (limit neighbourhood with MAX_FRAGMENTS lowered to 3/8 for the unrolling); the MTU is set after an optional earlier setMTU call. '
+            'payloads up to the limit to stay unfragmented, payloads above the fragmentation limit to be refused and a payload of exactly the limit to be accepted (limit neighbourhood with MAX_FRAGMENTS lowered to 3/8 for the unrolling); the MTU is set after an optional earlier setMTU call; a timed-out fragment is re-queued byte-identical to the original fragment message even if the process-wide MTU was changed while it was in flight. '
             'One reassembly step of the real _recvAppFragment from an arbitrary receiver context proves slot-written-once, '
             'completion <=> all slots filled, delivered payload == concatenation, other ids untouched (hence order and '
             'duplicate independence for histories of any length); an end-to-end scenario feeds the real sender\'s fragments '
@@ -54,7 +54,7 @@ CLAIMED = {
             'three message classes) is executed on the real dispatcher classes (both server and client variants) and compared '
             'with a reference map: exactly the registered handler is called once with the argument objects unchanged, unknown '
             'classes raise DispatchError and call nothing, duplicate registration is refused, unregister removes exactly the '
-            'resource\'s handlers and allows re-registration.',
+            'resource\'s handlers and allows re-registration. A registered handler that raises (7 exception types, KeyError among them) was invoked exactly once and its own exception comes out of dispatch: DispatchError means that nothing was registered and nothing was called (L20.3).',
             'Trusted: sx engine (used here only as an exhaustive case enumerator: every choice is an engine decision). '
             'Bound: sequence length 4 / 5; state space of the dispatcher is a map over 3 class names, so length 5 reaches every '
             'reachable state.',
@@ -120,7 +120,7 @@ CLAIMED = {
             'symbolic NaN flag, Bool terms, enum members by symbolic index). The real toJson/fromJson/dumps/loads are executed; '
             'json.dumps/loads are modelled as the identity on plain JSON data with object keys stringified (str(int) <-> int(str) '
             'inverse) and a TypeError exactly where json.dumps would refuse. Proven per path: field-wise deep equality for both '
-            'routes, containers come back with their annotated type, toJson yields only dict/list/str/int/float/bool/None; ten ordered pairs of classes that use the same field name with different annotations round-trip one after the other exactly as alone (L15.2).',
+            'routes, containers come back with their annotated type, toJson yields only dict/list/str/int/float/bool/None; a class derived from another message class and its base round-trip field for field whichever went through JSON first (L15.3); ten ordered pairs of classes that use the same field name with different annotations round-trip one after the other exactly as alone (L15.2).',
             'Trusted: sx engine, the json model (its contract is the documented behaviour of the json module on plain data). '
             'Outside: bytes fields (not JSON), lower-case enum member names (documented), Tuple[T, ...], more than one level of generics.',
             'DESIGN.md §6 C15'),
@@ -146,7 +146,7 @@ CLAIMED = {
             'exactly one place and fires once), for guaranteed sends carried by several datagrams because the round trip exceeds the '
             'resend interval (every ack/timeout/pending combination: exactly once, True), and for fragmented sends (once, after all '
             'fragments are resolved). That the peer accepted what it acknowledged: one receive step from an arbitrary 256-bit message window proves that a datagram the receiver accepts (hence acks) delivers its never-before-received message whatever the distance of its message seq from the newest one seen (L7.4); a two-endpoint scenario (guaranteed single / fragmented send, symbolic losses in both directions, then a healed network) shows at every tick that True is reported only once the peer holds the whole message and that the callback fires exactly once (L7.5); the rest is C01 (headers authenticated) and C08 (ack '
-            'fields name exactly the received datagrams).',
+            'fields name exactly the received datagrams). The retry argument of the guaranteed / unretried sends is passed in every legitimate spelling (enum member, plain int as UdpClient.send documents it, an equal but distinct enum instance).',
             'Trusted: sx engine, exact-real clock. Bounds: <= 2 (thorough 3) pending datagrams in the step lemma, 2..3 (4) carrying '
             'datagrams, <= 2 (3) fragments. BEST_EFFORT callbacks are excluded by the statement.',
             'DESIGN.md §6 C07'),
@@ -169,7 +169,7 @@ CLAIMED = {
             'liveness clock, both windows, queues, pending sends, token, fragments) unchanged, nothing acknowledged, timed out or '
             'delivered, counted as dropped. A second lemma takes a genuine sealed datagram from the real peer object and lets the '
             'attacker rewrite any header field, cut the ciphertext anywhere and append junk: never accepted. Keyless endpoints: '
-            'nothing but the single expected hello is dispatched, no application message or fragment, no status change. At the server gate (real UdpServerThread loop): a forged CRC datagram of any type from the address of a half-open connection that already holds a key leaves the connection object, key, token and status untouched and the genuine handshake completes (L1.4). The arbitrary state includes every integer counter of the connection and its statistics object (also counters the harness does not know by name), so threshold logic fed by earlier hostile datagrams is part of the step. A clear-text datagram that carries a genuine hello followed by a second message never gets that second message to the application (L1.5, real hello handler).',
+            'nothing but the single expected hello is dispatched, no application message or fragment, no status change. At the server gate (real UdpServerThread loop): a forged CRC datagram of any type from the address of a half-open connection that already holds a key leaves the connection object, key, token and status untouched and the genuine handshake completes (L1.4); the same forgery against an established connection that has been quiet for any time below the connection timeout leaves the connection in the pool, raises no disconnect event and the next genuine message is delivered (L1.6). The arbitrary state includes every integer counter of the connection and its statistics object (also counters the harness does not know by name), so threshold logic fed by earlier hostile datagrams is part of the step. A clear-text datagram that carries a genuine hello followed by a second message never gets that second message to the application (L1.5, real hello handler).',
             'Trusted/assumed: AES-GCM is an ideal AEAD and CRC-32 is public (real-world strength of AES-GCM is not shown); sx engine, '
             'struct model. Bounds: <= 2 inner messages, body <= 40 + tail <= 24 bytes (every byte the parser reads is symbolic), one '
             'pending datagram; genuine datagram of one message <= 200 bytes. Identical copies are replays (C04). The server gate is C10/C11.',
@@ -191,7 +191,7 @@ CLAIMED = {
     'C12': ('All times and settings are symbolic reals. Through the real UdpClient.update and ServerClientConnection.update an idle '
             'CONNECTED endpoint is proven to emit a datagram at a tick iff more than the configured keep-alive interval has elapsed and '
             'to restart both send clocks; timedout(T) is proven equivalent to silence >= T and a genuine datagram to reset the '
-            'liveness clock; the client reports DROPPED exactly after more than 5 s of silence; an unanswered connect attempt (connect() at an arbitrary instant, then two UdpClient.update ticks at arbitrary later instants) stays CONNECTING until the configured timeout and ends '
+            'liveness clock; the client reports DROPPED exactly after more than 5 s of silence, from CONNECTED and from DISCONNECTING; an unanswered connect attempt (connect() at an arbitrary instant, then two UdpClient.update ticks at arbitrary later instants) stays CONNECTING until the configured timeout and ends '
             'DISCONNECTED for good afterwards, with and without a callback, the callback fired once with False; both endpoints taken through the real handshake and then left idle for n ticks stay CONNECTED, emit per keep-alive interval and never call the connect callback again (L12.8); '
             'client setters called before, after or around connect() never raise and the values are observed at the thresholds of the '
             'real emission / timeout paths; an LRA lemma gives keep-alive + tick + jitter < timeout => no timeout between arrivals; configured connection / temp-connection timeouts and keep-alive interval are observed at their thresholds inside the real server loop (L12.7).',
@@ -220,7 +220,7 @@ CLAIMED = {
             'crossed with handler exceptions in connect/message/disconnect/update and shutdown after tick 4 or 8. On every path: no '
             'exception leaves the loop; per client object connect once, then only its own messages (each at most once), then '
             'disconnect once; starting first, shutdown last; pool empty after shutdown; connect only for a client that completed the '
-            'handshake; a client that sent DISCONNECT leaves the pool within a few ticks, not only at shutdown; B unaffected by A. get_token is decided for every RNG outcome against arbitrary tokens in both pools; the '
+            'handshake; a client that sent DISCONNECT leaves the pool within a few ticks, not only at shutdown; B unaffected by A. A peer that holds the session key but sends sealed application data (typed APP or CHALLENGE_RESP, one or two messages) instead of the challenge response, and keeps talking, causes no handler event at all and never enters the connection pool (L10.5). get_token is decided for every RNG outcome against arbitrary tokens in both pools; the '
             'reactor-thread entry points are proven never to reach a handler method.',
             'Threads: the engine is single-threaded; "all handler events on one thread" is replaced by the containment lemma (entry points '
             'never call the handler; every other call site is inside run()). Trusted: sx engine, ideal crypto, inert threading/reactor '
